@@ -129,6 +129,7 @@ func (this *Server) setup() error {
 		log.Info("Using SSL")
 	}
 
+	grpcServerOptions = append(grpcServerOptions, verifGrpcServerOptions(this)...)
 	this.grpcServer = grpc.NewServer(grpcServerOptions...)
 	pb.RegisterRaftTransportServer(this.grpcServer, raftTransport)
 	pb.RegisterNodesManagerServer(this.grpcServer, services.NewNodesManagerServer(this.nodesManager))
